@@ -47,6 +47,11 @@ type TreeCase struct {
 	Alias   []int      `json:"alias"`  // which alias spells it
 	Levels  [][]string `json:"levels"` // the tokens of each level, len(Path)+1 entries
 	Version string     `json:"version,omitempty"`
+	// VersionStr is the version string the app declares (default VersionString); it may contain '%'
+	VersionStr string `json:"version_str,omitempty"`
+	// DeclaresVersion: the app declares a version (flag names V / qversion) even though the case does not request it;
+	// a sub command on the path then owns an option spelled the same way, which must stay an ordinary option there
+	DeclaresVersion bool `json:"declares_version,omitempty"`
 	// HelpLevel/HelpPos: where a help token was inserted (-1 = none); informational, the oracle re-derives it.
 	HelpLevel int `json:"help_level"`
 	// Warmup, when non-nil, is a first argument vector given to the SAME application object before Argv()
@@ -134,6 +139,10 @@ func GenTree(t *rapid.T, depth int, id *int, cfg GenCfg) *TCmd {
 		n := rapid.IntRange(0, 3).Draw(t, "nsubs")
 		for i := 0; i < n; i++ {
 			s := GenTree(t, depth-1, id, cfg)
+			if chance(t, 1, 6, "samedecls") {
+				// the very same declarations and spec text as the parent: each level must still bind its own variables
+				s.D, s.AST, s.Spec, s.Implicit = c.D, c.AST, c.Spec, c.Implicit
+			}
 			na := rapid.IntRange(1, 3).Draw(t, "naliases")
 			for j := 0; j < na; j++ {
 				s.Aliases = append(s.Aliases, fmt.Sprintf("c%d%c", *id*10+i, 'a'+j))
@@ -228,6 +237,13 @@ func declareTree(c *cli.Cmd, t *TCmd, path string, out *TreeOutcome, td *treeDec
 // VersionString is printed by apps that declare a version.
 const VersionString = "9.8.7-qver"
 
+func (c *TreeCase) versionStr() string {
+	if c.VersionStr != "" {
+		return c.VersionStr
+	}
+	return VersionString
+}
+
 // RunTree runs the case against the library.
 func RunTree(c *TreeCase) TreeOutcome {
 	var out TreeOutcome
@@ -263,8 +279,8 @@ func buildTreeApp(out *TreeOutcome, c *TreeCase) *cli.Cli {
 	if c.forceContinue {
 		app.ErrorHandling = policies[PolContinue]
 	}
-	if c.Version != "" {
-		app.Version("V qversion", VersionString)
+	if c.Version != "" || c.DeclaresVersion {
+		app.Version("V qversion", c.versionStr())
 	}
 	td := &treeDecl{holders: map[string][]Holder{}, forceContinue: c.forceContinue}
 	declareTree(app.Cmd, c.Root, "app", out, td, nil)
@@ -436,11 +452,15 @@ func CheckTree(prop string, c *TreeCase, st *Stats) *Violation {
 		return nil
 	}
 	Begin(prop, "tree", c)
+	defer End() // the cross-policy rerun below stays under the watchdog too
 	out := RunTree(c)
-	End()
 	argv := c.Argv()
 	cmds := c.PathCmds()
 	ctx := fmt.Sprintf("policy=%v%s argv=%q", policies[c.Policy], subPolicies(c), argv)
+	if c.DeclaresVersion {
+		ctx += " (the app declares Version(\"V qversion\"); a sub command owns an option with such a name)"
+		st.Class("version:declared-not-requested-name-reused-by-subcommand")
+	}
 	if c.Warmup != nil {
 		ctx += fmt.Sprintf(" (second run on the same application object, after %q)", c.Warmup)
 		st.Class("sequence:second-run-on-same-app")
@@ -465,8 +485,8 @@ func CheckTree(prop string, c *TreeCase, st *Stats) *Violation {
 		if len(out.Log) != 0 {
 			return Violf("version request ran hooks %v; %s", out.Log, ctx)
 		}
-		if !strings.Contains(out.Stderr, VersionString) {
-			return Violf("version request did not print the version string; stderr=%q; %s", out.Stderr, ctx)
+		if !strings.Contains(out.Stderr, c.versionStr()) {
+			return Violf("version request did not print the version string %q; stderr=%q; %s", c.versionStr(), out.Stderr, ctx)
 		}
 		if v := exitOK(0); v != nil {
 			return v
@@ -479,6 +499,15 @@ func CheckTree(prop string, c *TreeCase, st *Stats) *Violation {
 	case e.HelpAt >= 0:
 		pol = c.EffPolicy(e.HelpAt)
 		st.Class("kind:help")
+		nhelp := 0
+		for _, lt := range c.Levels {
+			if HasHelpToken(lt) {
+				nhelp++
+			}
+		}
+		if nhelp >= 2 {
+			st.Class("help:tokens-at-several-levels")
+		}
 		if len(out.Log) != 0 {
 			return Violf("help request ran hooks %v; %s", out.Log, ctx)
 		}
@@ -636,6 +665,12 @@ func CheckTree(prop string, c *TreeCase, st *Stats) *Violation {
 	if len(c.Path) >= 1 {
 		st.Class("accept:depth>=1")
 	}
+	for l := 1; l < len(cmds); l++ {
+		if cmds[l].D == cmds[l-1].D || (cmds[l].Spec == cmds[l-1].Spec && FmtDecls(cmds[l].D) == FmtDecls(cmds[l-1].D)) {
+			st.Class("accept:two-levels-with-identical-declarations")
+			break
+		}
+	}
 	if len(c.Path) >= 2 && nonEmpty && nonFirst {
 		st.NonTrivial("accept\x00"+strings.Join(argv, "\x01")+fmt.Sprint(c.Policy), func() interface{} {
 			return map[string]interface{}{"argv": argv, "policy": c.Policy, "kind": "accept", "depth": len(c.Path)}
@@ -738,9 +773,38 @@ func GenTreeCase(t *rapid.T, mode TreeGenMode) *TreeCase {
 		}
 		c.Levels[l] = append(lt[:p:p], append(ins, lt[p:]...)...)
 		c.HelpLevel = l
+		if len(c.Levels) > 1 && chance(t, 1, 3, "secondhelp") {
+			// a second help token at another level: the first one (root first) decides
+			l2 := intn(t, len(c.Levels), "helplevel2")
+			lt2 := c.Levels[l2]
+			p2 := intn(t, len(lt2)+1, "helpat2")
+			c.Levels[l2] = append(lt2[:p2:p2], append([]string{rapid.SampledFrom([]string{"-h", "--help"}).Draw(t, "helptok2")}, lt2[p2:]...)...)
+			if l2 < l {
+				c.HelpLevel = l2
+			}
+		}
 	}
-	if chance(t, mode.Version, 16, "version") {
+	if mode.Version > 0 && len(c.Path) >= 1 && chance(t, 1, 6, "subownsversionname") {
+		// a sub command on the path declares its own flag spelled like the app's version flag and uses it
+		l := 1 + intn(t, len(c.Path), "vlevel")
+		cmd := c.PathCmds()[l]
+		d := &Decls{Opts: append([]OptDecl{}, cmd.D.Opts...), Args: cmd.D.Args}
+		names := rapid.SampledFrom([][]string{{"-V"}, {"--qversion"}, {"-V", "--qversion"}}).Draw(t, "vnames")
+		d.Opts = append(d.Opts, OptDecl{Names: names, Bool: true})
+		vo := len(d.Opts) - 1
+		cmd.D = d
+		if cmd.Implicit {
+			cmd.AST = implicitAST(d)
+		} else {
+			cmd.AST = &Node{Kind: KSeq, Kids: []*Node{{Kind: KOptional, Kids: []*Node{{Kind: KOpt, Opt: vo}}}, cmd.AST}}
+			cmd.Spec = cmd.AST.Render(d)
+		}
+		c.Levels[l] = append([]string{names[intn(t, len(names), "vspell")]}, c.Levels[l]...)
+		c.DeclaresVersion = true
+	}
+	if !c.DeclaresVersion && chance(t, mode.Version, 16, "version") {
 		c.Version = rapid.SampledFrom([]string{"-V", "--qversion"}).Draw(t, "vflag")
+		c.VersionStr = rapid.SampledFrom([]string{"", "1.4.0 (100% qver compatible)", "%d-qver-%s%", "qver\t2"}).Draw(t, "vstr")
 	}
 	return c
 }
